@@ -214,7 +214,7 @@ def run(ck, facts):
     for i, st in enumerate(stmts):
         # a statement fills the declaration list if it pushes onto it, or hands it (`&mut param_decls`) to a helper that does
         touches = any(x.get("k") == "local" and x.get("n") == "param_decls" for x in C.walk(st)) and \
-            any(x.get("k") == "mcall" and x.get("m") in ("push", "extend") for x in C.walk_inl(tool, st, 1))
+            any(x.get("k") == "mcall" and x.get("m") in ("push", "extend") for x in C.walk_inl(tool, st, 2, max_nodes=1500))
         if not touches:
             continue
         inner = C.strip(st)
@@ -222,7 +222,7 @@ def run(ck, facts):
             idx_self = i
         elif inner.get("k") == "for" and any(x.get("k") == "field" and x.get("n") == "params" for x in C.walk(inner["iter"])):
             idx_for = i
-        elif any(re.search(r"\bwrite\b", s_) for x in C.walk_inl(tool, st, 1) for s_ in ([x["v"]] if x.get("k") == "lit" and x.get("t") == "str" else ([x.get("src", "")] if x.get("k") == "macro" else []))):
+        elif any(re.search(r"\bwrite\b", s_) for x in C.walk_inl(tool, st, 2, max_nodes=1500) for s_ in ([x["v"]] if x.get("k") == "lit" and x.get("t") == "str" else ([x.get("src", "")] if x.get("k") == "macro" else []))):
             idx_write = i
     ck.expect(idx_self is not None and idx_for is not None and idx_write is not None and idx_self < idx_for < idx_write, "R4", "c::gen_method/self<params<write",
               "statements %s < %s < %s" % (idx_self, idx_for, idx_write), "C method generator no longer pushes self, then params, then write (positions %s, %s, %s)" % (idx_self, idx_for, idx_write), C.loc(gm))
@@ -312,7 +312,7 @@ def run(ck, facts):
         ck.bad("R5", "corpus-floor", "only %d generated method wrappers analysed (floor 180)" % n5)
     # macro source: repr(C) is forced
     gb = mac.fn("gen_bridge")
-    srcs = [n.get("src", "") for n in C.walk(C.fn_body(gb)) if n.get("k") == "macro" and n.get("name") in ("parse_quote", "quote")]
+    srcs = [n.get("src", "") for n in C.walk_inl(mac, C.fn_body(gb), max_nodes=1500) if n.get("k") == "macro" and n.get("name") in ("parse_quote", "quote")]
     n_repr = sum(1 for s in srcs if re.search(r"#\s*\[\s*repr\s*\(\s*C\s*\)\s*\]", s))
     ck.expect(n_repr >= 2, "R5", "macro::gen_bridge/forces-repr(C)", "%d repr(C) templates" % n_repr, "gen_bridge no longer adds #[repr(C)] to structs and enums (found %d templates)" % n_repr, C.loc(gb))
 
